@@ -60,7 +60,15 @@ def battery(seed, tier, n):
             t = (k,) + tuple(terms)
             if rng.random() < 0.4:
                 t = G.embed(rng, t, cfg)
-        elif r < 0.5:
+        elif r < 0.4:
+            # shapes whose rewrite rules partition / group their arguments (where set- or dict-ordering slips live):
+            # several members sharing a parameter plus several that are alone in theirs
+            name = rng.choice(["add_logs", "add_logs", "mul_nthpowers", "mul_nthroots", "mul_exponentials", "add_consts", "mul_consts",
+                               "mul_negations", "mul_reciprocals", "add_negations", "add_flatten", "mul_flatten"])
+            t = G.rule_shape(rng, name, G.Cfg(varnames=names, p_var=0.9, max_n=4))
+            if rng.random() < 0.3:
+                t = G.embed(rng, t, cfg)
+        elif r < 0.55:
             t = G.friendly_tree(rng, G.rand_size(rng, 6, 26), cfg, p=0.8)
         elif r < 0.7:
             t = G.rule_case(rng, cfg)
